@@ -4,7 +4,7 @@ from vlint.absint import const_eval
 from vlint.facts import callee_of, resolved, AnchorMissing
 from vlint.gates import field_of, root_of
 from vlint.paths import Summariser, ret_okness, okness
-from vlint.terms import show, subterms, peel
+from vlint.terms import Sym, show, subterms, peel
 from vlint.util import must_of, sites, enum_variant_of, option_shape, field_writes
 from . import common, replies, server
 from .server import ServerModel
@@ -58,6 +58,13 @@ def b1(fb, chk):
         ws = [w for w in field_writes(g) if (w["adt"] or "").endswith("BackendInternal")]
         if len(ws) == 1:
             flag_field = ws[0]["field"]
+            # the setter installs the value it is given (turning the flag off again works)
+            gv = Sym(g, fb).rvalue(ws[0]["rv"])
+            while gv[0] in ("ref", "deref"):
+                gv = gv[1]
+            chk.check(gv[0] == "param", "B1", "proxy:setter:set_reply_ack_flag", "flag <- the parameter",
+                      "Backend::set_reply_ack_flag stores `%s`, not the value it was given: once on, the proxy keeps asking and waiting for "
+                      "acknowledgements after REPLY_ACK was negotiated away" % show(gv)[:60], g.loc(ws[0]["line"]))
     if flag_field is None:
         chk.anchor_missing("B1", "reply-ack flag of the proxy")
         return
@@ -174,6 +181,20 @@ def b2(fb, chk):
                 got.append("?" + txt[:40])
         chk.check(got == ARGS[row["handler"]] and not m.cfg.in_loop(bb), "B2", key, "%s(%s)" % (row["handler"], ", ".join(got)),
                   "handler %s for %s receives %s; expected %s" % (row["handler"], code, got, ARGS[row["handler"]]), fr.loc(t["line"]))
+    # a handler's failure stays a handler failure (its own errno is what gets acknowledged): every arm converts the result
+    # with the same constructor, Error::ReqHandlerError
+    for code, cs in sorted(by.items()):
+        for bb, t, c in cs:
+            hcall = m.sym.call_at(bb)
+            conv = []
+            for mb, mt, mc in sites(fr, name="map_err"):
+                a = m.sym.arg_terms(mb)
+                if a and any(x == hcall for x in subterms(a[0])):
+                    conv.append(show(a[1]))
+            if conv:
+                chk.check(all("ReqHandlerError" in x for x in conv), "B2", "arm:%s:error-class" % code, "handler error -> ReqHandlerError",
+                          "arm %s converts the handler's error with %s: the acknowledgement then carries -EINVAL instead of the handler's own "
+                          "errno, and the application sees a socket error" % (code, conv), fr.loc(t["line"]))
     extra = set(by) - set(wire.BACKEND_TABLE)
     chk.check(not extra, "B2", "arm:others", "no handler for requests outside the table", "handlers called for %s" % sorted(extra), fr.loc())
 
@@ -301,5 +322,14 @@ def b3(fb, chk):
                 probs.add("code %s" % show(h["request"])[:50])
             if h["size"] is None or not any(x[0] == "call" and x[1] == "size_of" for x in subterms(h["size"])):
                 probs.add("size %s" % (show(h["size"])[:40] if h["size"] is not None else None))
+            else:
+                # size_of::<T>() of the BODY type parameter of the constructor (the method's own generic), not of a type
+                # parameter of the server (its handler type)
+                own = [p_ for p_ in (g.rec.get("generics") or [])]
+                for x in subterms(h["size"]):
+                    if x[0] == "call" and x[1] == "size_of":
+                        ga = (h["sym"].info(x).get("gargs") or [""])[-1]
+                        if ga in ("S", "Self") or (own and ga not in own and len(ga) <= 2):
+                            probs.add("size is size_of::<%s>(), the server's type parameter, not the reply body's" % ga)
         chk.check(bool(hs) and not probs, "B3", "ack-header", "ack header: request's code, flags 0x5, size_of body",
                   "ack header built with %s" % sorted(probs), g.loc())
